@@ -103,6 +103,19 @@ impl EagerAggregation {
         if join.join_type != JoinType::Inner || join.filter.is_some() {
             return None;
         }
+        // One side of this join is already a pre-aggregate of an earlier
+        // pass (the optimizer iterates to a fixpoint): pre-aggregating the
+        // other side too would produce a second set of __ea_key / __ea_sum_i /
+        // __ea_cnt columns that the rewritten expressions cannot tell apart.
+        let already_rewritten = |p: &LogicalPlan| {
+            p.schema()
+                .fields()
+                .iter()
+                .any(|f| f.name.starts_with("__ea_"))
+        };
+        if already_rewritten(&join.left) || already_rewritten(&join.right) {
+            return None;
+        }
         // Try each side as the pre-aggregation candidate R
         for r_is_left in [true, false] {
             if let Some(p) = self.try_rewrite_side(agg, join, r_is_left) {
